@@ -325,7 +325,7 @@ def match_known(known, v):
     return None
 
 
-def trace_verdict(ctx, res, trace_path, aux_path=None, check="trace", describe=None, key="n"):
+def trace_verdict(ctx, res, trace_path, aux_path=None, check="trace", describe=None, key="n", only=None):
     """Interpret the output of a Trace*.tla run: the spec prints <<"VERIF-REJECTED", {line numbers}>> and
     <<"VERIF-CONSUMED", n>>; every rejected line becomes a violation carrying the recorded event
     (and the concrete input from the aux file, when there is one)."""
@@ -358,8 +358,14 @@ def trace_verdict(ctx, res, trace_path, aux_path=None, check="trace", describe=N
                     aux[a.get("n")] = a
                 except Exception:
                     pass
-        for ln in rejected[:20]:
+        shown = 0
+        for ln in rejected:
             ev = json.loads(events[ln - 1])
+            if only and not only(ev):
+                continue      # this kind of event is another property's subject (reported by that property's check)
+            shown += 1
+            if shown > 20:
+                break
             sig = describe(ev) if describe else "trace-rejected"
             if ln in whys:
                 sig += ":" + whys[ln]
@@ -368,12 +374,25 @@ def trace_verdict(ctx, res, trace_path, aux_path=None, check="trace", describe=N
     return consumed, rejected
 
 
-def sharded_trace(ctx, module, cfg, trace_path, aux_path=None, check="trace", describe=None, key="n", shards=None, timeout=3000):
-    """Validate a long trace of independent events in parallel: split it into shards, one TLC (1 worker) per shard."""
+def sharded_trace(ctx, module, cfg, trace_path, aux_path=None, check="trace", describe=None, key="n", shards=None, timeout=3000,
+                  group_start=None, only=None):
+    """Validate a long trace of independent events in parallel: split it into shards, one TLC (1 worker) per shard.
+    group_start(event) -> True marks the first event of a group of lines that must stay together, in order
+    (a whole run of a stateful trace specification)."""
     import concurrent.futures
     lines = open(trace_path).read().splitlines()
     shards = shards or min(NCPU, max(1, len(lines) // 200))
-    parts = [lines[i::shards] for i in range(shards)]
+    if group_start:
+        groups = []
+        for ln in lines:
+            if group_start(json.loads(ln)) or not groups:
+                groups.append([])
+            groups[-1].append(ln)
+        parts = [[] for _ in range(shards)]
+        for i, g in enumerate(groups):
+            parts[i % shards].extend(g)
+    else:
+        parts = [lines[i::shards] for i in range(shards)]
     paths = []
     for i, part in enumerate(parts):
         p = "%s.shard%d" % (trace_path, i)
@@ -391,7 +410,7 @@ def sharded_trace(ctx, module, cfg, trace_path, aux_path=None, check="trace", de
     for i, res in enumerate(results):
         if res is None:
             continue
-        c, _ = trace_verdict(ctx, res, paths[i], aux_path, check=check, describe=describe, key=key)
+        c, _ = trace_verdict(ctx, res, paths[i], aux_path, check=check, describe=describe, key=key, only=only)
         total += c
     return total
 
